@@ -6,6 +6,7 @@ use crate::parse::lex::token::Token;
 pub struct State {
     newlines: Vec<Lex>,
     cur_indent: i32,
+    open_indents: usize,
     line_indent: i32,
     token_this_line: bool,
     pub pos: CaretPos,
@@ -17,6 +18,7 @@ impl State {
         State {
             newlines: vec![],
             cur_indent: 1,
+            open_indents: 0,
             line_indent: 1,
             token_this_line: false,
             pos,
@@ -24,8 +26,9 @@ impl State {
     }
 
     pub fn flush_indents(&mut self) -> Vec<Lex> {
-        let amount = ((self.cur_indent) / 4) as usize;
+        let amount = self.open_indents;
         self.cur_indent = 1;
+        self.open_indents = 0;
         vec![Lex::new(self.pos, Token::Dedent); amount]
     }
 
@@ -48,9 +51,12 @@ impl State {
         let mut res = self.newlines.pop().map_or(vec![], |nl| vec![nl]);
         if self.line_indent >= self.cur_indent {
             let amount = ((self.line_indent - self.cur_indent) / 4) as usize;
+            self.open_indents += amount;
             res.append(&mut vec![Lex::new(self.pos, Token::Indent); amount]);
         } else {
             let amount = ((self.cur_indent - self.line_indent) / 4) as usize;
+            let amount = amount.min(self.open_indents);
+            self.open_indents -= amount;
             res.append(&mut vec![Lex::new(self.pos, Token::Dedent); amount]);
             res.push(Lex::new(self.pos, Token::NL));
         }
